@@ -7,9 +7,10 @@ sys.path.insert(0, os.path.dirname(os.path.abspath(__file__)))
 import core, mirlib, props
 
 
-def make_scratch(edits, base=None):
-    """copy the working tree (src, Cargo.*) and apply (file, old, new) edits; returns dir or None if an
-    edit does not apply"""
+def make_scratch(edits, base=None, patch=None):
+    """copy the working tree (src, Cargo.*), apply an optional patch file (a behaviour-preserving
+    refactor kept under sa/benign) and then (file, old, new) edits; returns dir or None if something
+    does not apply"""
     base = base or core.REPO
     d = tempfile.mkdtemp(prefix='grevm-selftest-', dir=os.environ.get('TMPDIR', '/tmp'))
     for item in ('src', 'Cargo.toml', 'Cargo.lock', 'benches', 'tests', 'rust-toolchain.toml'):
@@ -18,6 +19,11 @@ def make_scratch(edits, base=None):
             shutil.copytree(s, os.path.join(d, item))
         elif os.path.exists(s):
             shutil.copy2(s, os.path.join(d, item))
+    if patch:
+        r = subprocess.run(['git', 'apply', os.path.join(core.VERIF, patch)], cwd=d, capture_output=True, text=True)
+        if r.returncode != 0:
+            shutil.rmtree(d, ignore_errors=True)
+            return None, f'patch {patch} does not apply to the current tree: {r.stderr.strip()[:120]}'
     for file, old, new in edits:
         p = os.path.join(d, file)
         txt = open(p).read()
@@ -43,7 +49,7 @@ def worker_target(i):
 
 
 def run_case(case, tag='st', target=None):
-    d, why = make_scratch(case['edits'])
+    d, why = make_scratch(case['edits'], patch=case.get('patch'))
     if d is None:
         return dict(name=case['name'], status='skipped', why=why)
     try:
